@@ -226,7 +226,7 @@ func (e *coreEmitter) history(c *CoreCase, name string) string {
 	init := e.obs(c.Init)
 	b.WriteString(fmt.Sprintf("Definition %s : ohistory := mkHist %s [%s]\n  %s\n [\n ", name, coqBool(c.World.ResDelayOn), strings.Join(deny, "; "), init))
 	b.WriteString(strings.Join(steps, ";\n "))
-	b.WriteString("\n ].\n")
+	b.WriteString("\n ] " + coqBool(c.World.ResWaitOn) + ".\n")
 	return b.String()
 }
 
